@@ -85,10 +85,15 @@ type Cfg struct {
 	LongStay bool `json:"long_stay"`
 	// PartialCL: refused POSTs declare a Content-Length, send only part of the body and stay connected
 	PartialCL bool `json:"refused_post_with_content_length"`
+	// OneCPU: the program runs with GOMAXPROCS=1 (a one-core machine or container): goroutines
+	// woken by the program itself run only when the waker blocks or yields
+	OneCPU bool `json:"gomaxprocs_1"`
+	// FixedLen: the real shell's POST /o declares a (huge) Content-Length instead of being chunked
+	FixedLen bool `json:"shell_output_with_content_length"`
 }
 
 func (c Cfg) sig() string {
-	return fmt.Sprintf("%s|%s|%s|%s|%s|%s|h%v|ts%v|f%v|rst%v", c.Kind, c.Order, c.Junk, c.JunkWhere, c.Traffic, c.Ending, c.Hold, c.NoTS, c.Files, c.PollRST)
+	return fmt.Sprintf("%s|%s|%s|%s|%s|%s|h%v|ts%v|f%v|rst%v", c.Kind, c.Order, c.Junk, c.JunkWhere, c.Traffic, c.Ending, c.Hold, c.NoTS, c.Files, c.PollRST) + map[bool]string{true: "|1cpu", false: ""}[c.OneCPU] + map[bool]string{true: "|cl", false: ""}[c.FixedLen]
 }
 
 // makeCfg derives the configuration of case i.  C12_FORCE="order=o-i,junk=wrong-id,hold=true,ending=out-end,traffic=idle,where=pre"
@@ -121,6 +126,10 @@ func makeCfg(rng *rand.Rand, i, rot int) Cfg {
 			c.Hold = v == "true"
 		case "selfwait":
 			c.SelfWait, _ = strconv.Atoi(v)
+		case "onecpu":
+			c.OneCPU = v == "true"
+		case "fixedlen":
+			c.FixedLen = v == "true"
 		}
 	}
 	return c
@@ -169,9 +178,22 @@ func makeCfg0(rng *rand.Rand, i, rot int) Cfg {
 		c.Junk, c.JunkWhere = "half-dies", "pre"
 	}
 	c.NTok, c.NLines = 220, 220
+	c.OneCPU = rng.IntN(4) == 0
+	if i%10 == 6 && c.Order != "i-o" && c.Order != "o-i" {
+		c.Order = []string{"i-o", "o-i"}[rng.IntN(2)] // the case below needs two requests
+	}
 	switch c.Order {
 	case "i-o", "o-i":
 		c.Ending = []string{"out-end", "out-close", "in-close", "both"}[rng.IntN(4)]
+		if i%10 == 6 {
+			// one case in ten: the shell ends because its input connection goes away while the
+			// client of its output request stays connected and silent, on one CPU
+			c.Ending, c.Hold, c.OneCPU = "in-close", true, true
+		}
+		// half of the shells whose output stream is not ended properly upload with a declared length
+		if c.Ending != "out-end" && (rng.IntN(2) == 0 || i%10 == 6) {
+			c.FixedLen = true
+		}
 	case "io":
 		c.Ending = []string{"io-end", "io-close"}[rng.IntN(2)]
 	case "curl":
@@ -543,7 +565,12 @@ func runCase(r *mon.Run, bin string, i int, alone bool) *result {
 		os.WriteFile(filepath.Join(fdir, "f.txt"), []byte("file content\n"), 0o644)
 		args = append(args, "-serve-files-from", fdir)
 	}
-	s, err := crs.Start(bin, filepath.Join(home, "home"), args...)
+	var extraEnv []string
+	if cfg.OneCPU {
+		extraEnv = append(extraEnv, "GOMAXPROCS=1")
+		res.count("runs_with_gomaxprocs_1", 1)
+	}
+	s, err := crs.StartEnv(bin, filepath.Join(home, "home"), extraEnv, args...)
 	if err != nil {
 		res.inconclusive("program did not start: %v", err)
 		return res
@@ -1119,7 +1146,7 @@ func (e *env) fullShell() {
 			e.tl.add("HARNESS real /i/%s attached (first half)", id)
 		}
 	case "o-i":
-		if out, err = crs.OpenOut(e.addr, "/o/"+id); err == nil {
+		if out, err = e.openRealOut("/o/" + id); err == nil {
 			e.keep(out)
 			t.mu.Lock()
 			t.out = out
@@ -1207,7 +1234,7 @@ func (e *env) fullShell() {
 	e.tl.at(t2, "HARNESS starts the request that completes the shell (%s)", c.Order)
 	switch c.Order {
 	case "i-o":
-		out, err = crs.OpenOut(e.addr, "/o/"+id)
+		out, err = e.openRealOut("/o/" + id)
 		if err == nil {
 			e.keep(out)
 			t.mu.Lock()
@@ -1336,6 +1363,18 @@ func (e *env) fullShell() {
 			out.Close()
 		}
 	})
+}
+
+// openRealOut opens the real shell's output request: chunked, or with a
+// declared length of 200 000 bytes of which only the tokens (a few KB) are ever
+// sent — less than 256 KiB stay outstanding, which is the range in which
+// net/http tries to read the rest of a body before it lets go of a request.
+func (e *env) openRealOut(target string) (*crs.OutStream, error) {
+	if e.cfg.FixedLen {
+		e.res.count("shells_uploading_with_content_length", 1)
+		return crs.OpenOutLen(e.addr, target, 200000)
+	}
+	return crs.OpenOut(e.addr, target)
 }
 
 // checkTraffic waits for everything sent to have arrived and compares.
